@@ -10,4 +10,4 @@ Definition default_bytes_in_last_block : Z := (-1)%Z.
    filter is still open (textual test: the body mentions client_closer and free(state)) *)
 Definition client_free_closes_open_client : bool := false.
 (* _archive_write_free, state FATAL: else-branch 'r1 = __archive_write_filters_close(a); if (r1 < r) r = r1;' *)
-Definition free_closes_filters_when_fatal : bool := false.
+Definition free_closes_filters_when_fatal : bool := true.
